@@ -17,7 +17,7 @@ CKeySets ==
 Signers == {<< >>, <<"o1">>, <<"o2">>, <<"o1", "o2">>}
 
 Edits == {"none", "step_name", "threshold", "pubkeys", "command", "mrule", "prule",
-          "keys_add", "readme", "expires", "expires_minus", "add_step", "cmd_requote", "cmd_respace", "cmd_empty_arg"}
+          "keys_add", "readme", "expires", "expires_minus", "add_step", "cmd_requote", "cmd_respace", "cmd_empty_arg", "match_in_empty"}
 
 Shapes == {"asis", "empty", "flipped", "relabel", "dup", "dupbad", "dupsplit_bad", "dupsplit_foreign", "dupsplit_relabel"}
 
